@@ -333,7 +333,11 @@ def _find_inputs_and_outputs(module_context, context, nodes):
                 outputs.append(name.value)
         else:
             if name.value not in inputs:
-                name_definitions = context.goto(name, name.start_pos)
+                # In `a = a + 1` the right hand side is evaluated before `a` is
+                # (re)defined, like in normal inference.
+                stmt = name.search_ancestor('expr_stmt')
+                position = name.start_pos if stmt is None else stmt.start_pos
+                name_definitions = context.goto(name, position)
                 if not name_definitions \
                         or _is_name_input(module_context, name_definitions, first, last):
                     inputs.append(name.value)
